@@ -894,6 +894,8 @@ def r3s(F):
         op = rv["ops"][rv["fields"].index("self_stack")]
         labs = Origins(g).at(op, gb)
         ok = ("field", "self_stack") in labs
+        handed_in = [l for l in labs if l[0] == "param" and l[1] != 1]
+        need(ok or not handed_in, "%s: the child's self stack is handed in as a parameter; what the callers pass is not followed" % g.name.split("::")[-1])
         r.inst("format-scope:%s:self_stack-inherited" % g.name.split("::")[-1], g.where(gb), ok,
                "the child VM starts with the parent's self stack" if ok else
                "the VM that evaluates `@{..}` inside a copy body starts with an empty self stack: `base{ url = \"@{self.host}\" % {} }` fails "
